@@ -467,3 +467,28 @@ def replay_by_rerun(mod, prop, path):
                     pass
     print(f"[verif] replay by re-run: signature {sig!r} {'found again' if again else 'not found'}")
     return 1 if again else 0
+
+
+def run_group(argv, timeout, stdin=None, env=None):
+    """subprocess.run(..., timeout) for a program that starts child processes: the program runs in its own session and on a
+    time-out the WHOLE process group is killed (a hung multi-core cutadapt otherwise leaves its workers behind).
+    Returns a CompletedProcess or raises subprocess.TimeoutExpired."""
+    import signal
+
+    p = subprocess.Popen(argv, stdout=subprocess.PIPE, stderr=subprocess.PIPE, stdin=stdin, env=env, start_new_session=True)
+    try:
+        out, err = p.communicate(timeout=timeout)
+    except subprocess.TimeoutExpired:
+        try:
+            os.killpg(p.pid, signal.SIGKILL)
+        except OSError:
+            pass
+        p.communicate()
+        raise
+    finally:
+        # workers that outlive a crashed main process
+        try:
+            os.killpg(p.pid, signal.SIGKILL)
+        except OSError:
+            pass
+    return subprocess.CompletedProcess(argv, p.returncode, out, err)
